@@ -2551,7 +2551,10 @@ def render(repo=None):
             cache[path] = (src, ast.parse(src))
         src, tree = cache[path]
         defs.append(Fn(cfg, src, cfg["file"], tree).translate())
-    return {"Code.lean": PRELUDE + "\n\n".join(defs) + "\n\nend Mofun.Generated.Code\n"}
+    files = {"Code.lean": PRELUDE + "\n\n".join(defs) + "\n\nend Mofun.Generated.Code\n"}
+    from . import gen_code6             # batch 6 lives in its own module and writes Generated/Code6.lean
+    files.update(gen_code6.render(repo))
+    return files
 
 
 def regenerate(repo=None, out_dir=None):
